@@ -336,6 +336,10 @@ def run_check(P, tier, seed, replay=None):
         "partial": getattr(P, "PARTIAL", None),
     }
     cov.update(ctx.extra_cov)
+    if cov["discharged"] < 1:
+        # a run whose proof obligations did not check must not look like proof evidence
+        cov["proof_obligations_failed"] = cov.pop("obligations")
+        cov.pop("discharged")
     ev = {"property_id": pid, "tier": tier, "seed": seed, "level": "proof", "coverage": cov,
           "assumptions": list(getattr(P, "ASSUMES", [])), "wall_s": round(wall, 2),
           "violations": len(ctx.violations)}
